@@ -2,7 +2,7 @@
    Property theorems only; every proof is [exact <lemma>] (or a one-line
    combination of lemmas). The model is model/C01_Parse.v. *)
 From verif Require Import lib.Base lib.Utf8 model.C01_Parse model.C01
-  proofs.C01_proofs proofs.C01_Utf8_proofs proofs.C01_Parse_proofs proofs.C01_sweep.
+  proofs.C01_proofs proofs.C01_Utf8_proofs proofs.C01_Parse_proofs proofs.C01_Total_proofs proofs.C01_sweep.
 
 (* The oracle evaluated on what parse.Parse returned is sound for the
    specification of a lossless tree with all error ranges inside the source. *)
@@ -59,6 +59,33 @@ Theorem C01_node_text_is_slice_refuted :
 Proof. exact node_text_is_slice_refuted. Qed.
 Print Assumptions C01_node_text_is_slice_refuted.
 
+(* Per-loop progress, unbounded: in every reachable parser state of every
+   source, each leaf loop (spaces/comments/continuations, redirection sign,
+   bareword, variable name, wildcard, single- and double-quoted strings, the
+   variable primary) terminates within its fuel S(len src): every iteration
+   consumes at least one byte or exits. *)
+Theorem C01_leaf_loops_total : forall is_print src ps, SI src ps ->
+  (forall b nl, exists r, parseSpacesInner src b ps nl = Some r)
+  /\ (exists q, redirSignLoop src (lfuel src) ps = Some q)
+  /\ (forall ctx, exists q, barewordLoop is_print src (lfuel src) ctx ps = Some q)
+  /\ (exists q, varNameLoop is_print src (lfuel src) ps = Some q)
+  /\ (exists q, starLoop src (lfuel src) ps = Some q)
+  /\ (exists q, singleQuotedInner src (lfuel src) ps = Some q)
+  /\ (exists q, doubleQuotedInner src (lfuel src) ps = Some q)
+  /\ (exists q, variable is_print src ps = Some q).
+Proof. exact leaf_loops_total. Qed.
+Print Assumptions C01_leaf_loops_total.
+
+(* Progress of the node parsers, unbounded (every source, table and fuel
+   level): a Primary, Indexing, Compound and the Compound loop consume at least
+   one byte when the next rune can start a primary; a MapPair when the next
+   rune is an ampersand; a Redir when it is a redirection sign.  These are the
+   facts each loop of the grammar needs to consume input in every iteration. *)
+Theorem C01_node_progress : forall is_print src fuel,
+  Prog is_print src (parsers is_print src fuel).
+Proof. exact parsers_prog. Qed.
+Print Assumptions C01_node_progress.
+
 (* Totality with the fuel bound FUELK*(len+1), bounded version: for every text
    of length <= 3 over 25 metacharacters and of length <= 4 over 16 bytes
    (incl. a two-byte rune and its halves) the model returns within its fuel. *)
@@ -70,8 +97,8 @@ Print Assumptions C01_parse_total_partial.
 (* non-vacuity: the model parses a pipeline with a lambda without errors into
    a tree accepted by the oracle *)
 Example C01_example :
-  match parse_model pr0 (hx "61207c2065616368207b7c787c2070757420247820277927207d") with
-  | Some (t, es) => check_C01 (hx "61207c2065616368207b7c787c2070757420247820277927207d") t es = true /\ es = []
+  match parse_model pr0 example_src with
+  | Some (t, es) => check_C01 example_src t es = true /\ es = []
   | None => False
   end.
 Proof. exact example_pipeline. Qed.
